@@ -57,3 +57,42 @@ def small_order_points():
 
 def in_g2(P):
     return rm.oncurve(F2, P) and rm.cmul(F2, r, P) is None
+
+
+def directed_g1_point(rng):
+    """a point of G1 (any curve point: cofactor 1) one of whose intermediate doubling values - x^2, y^2 or y^4 in Montgomery form -
+    sits just below / on / above a value where a small multiple (2x, 3x, 8x) crosses a multiple of q or of 2^256. Returns (P, what) or None."""
+    from . import gen
+    R = rm.R
+    for _ in range(300):
+        k = rng.choice([2, 3, 4, 8, 8, 8])
+        j = rng.randrange(1, k)
+        base = (j * q // k) if rng.random() < 0.7 else (j * R // k)
+        delta = rng.getrandbits(rng.choice([1, 8, 64, 128, 180, 187, 190])) * rng.choice([1, -1])
+        t = rm.unmont((base + delta) % q, q)
+        what = rng.choice(['y4', 'y4', 'y2', 'x2'])
+        if what == 'x2':
+            x = rm.fq_sqrt(t)
+            if x is None:
+                continue
+            P = lift_x(1, x)
+            if P is None:
+                continue
+            return P, what
+        y = rm.fq_sqrt(t)
+        if y is None:
+            continue
+        if what == 'y4':
+            y2 = rm.fq_sqrt(y)
+            if y2 is None:
+                y2 = rm.fq_sqrt((-y) % q)
+                if y2 is None:
+                    continue
+            y = y2
+        x = rm.fq_cuberoot((y * y - 5) % q)
+        if x is None:
+            continue
+        P = (x, y)
+        assert rm.oncurve(F1, P)
+        return P, what
+    return None
